@@ -163,6 +163,13 @@ Qed.
 Lemma feature_map_holds : feature_map_ok facade_features impl_features derive_feature_names = true.
 Proof. vm_compute. reflexivity. Qed.
 
+Lemma closure_exact_holds : closure_exact facade_features impl_features derive_feature_names = true.
+Proof. vm_compute. reflexivity. Qed.
+
+Example closure_sees_implication :
+  closure [("a", ["dep:x"; "b"]); ("b", ["c"]); ("c", [])]%string ["a"]%string = ["a"; "b"; "c"]%string.
+Proof. reflexivity. Qed.
+
 (* ------------------------------------------------------------------ the procedure on small instances *)
 
 Example implies_any : implies_dec (FVar 1) (FAny [FVar 0; FVar 1]) = true. Proof. reflexivity. Qed.
